@@ -60,6 +60,9 @@ func cmdVerify(args []string) {
 		if sp == nil && !*nospec {
 			continue
 		}
+		if sp != nil && sp.Trusted {
+			continue
+		}
 		keys = append(keys, k)
 	}
 	sort.Strings(keys)
@@ -74,8 +77,8 @@ func cmdVerify(args []string) {
 	for _, k := range keys {
 		fn := L.funcs[k]
 		sp := L.specs.Funcs[k]
-		r := L.verifyFunc(fn, sp)
-		dischargeAll(r.Obls, opt)
+		r := L.verifyFuncHoudini(fn, sp, opt)
+		dischargeAll(pending(r.Obls), opt)
 		fmt.Printf("== %s: %d obligations, flags=%v\n", r.Short, len(r.Obls), r.Flags)
 		for _, e := range r.Errs {
 			fmt.Println("   ERROR:", e)
